@@ -147,7 +147,6 @@ static void RegPrefix(
             goto inv16;
         }
         pInfo->CodeLen = PrefixLen + 1;
-        SimpleNextAddress(pInfo, Address);
         as_snprintf(pInfo->SrcLine, sizeof(pInfo->SrcLine), "retn");
         break;
     case 0x06:
@@ -475,7 +474,6 @@ static void RegPrefix(
                 pInfo->SrcLine, sizeof(pInfo->SrcLine), "ld\tcf,%c.%u",
                 Reg8Names[SrcRegIndex], Opcode & 7U);
         break;
-    inv16:
     case 0xfa:
         if (SrcRegIndex > 3) {
             goto inv16;
@@ -516,6 +514,7 @@ static void RegPrefix(
                 pInfo->SrcLine, sizeof(pInfo->SrcLine), "jp\t%s", Reg16Names[SrcRegIndex]);
         pInfo->pRemark = "indirect jump, investigate here";
         break;
+    inv16:
     default:
         HexString(NumBuf, sizeof(NumBuf), Opcode, 2);
         HexString(NumBuf2, sizeof(NumBuf2), Address, 0);
@@ -853,12 +852,10 @@ static void Disassemble_87C800(
             break;
         case 0x04:
             pInfo->CodeLen = 1;
-            SimpleNextAddress(pInfo, Address);
             as_snprintf(pInfo->SrcLine, sizeof(pInfo->SrcLine), "reti");
             break;
         case 0x05:
             pInfo->CodeLen = 1;
-            SimpleNextAddress(pInfo, Address);
             as_snprintf(pInfo->SrcLine, sizeof(pInfo->SrcLine), "ret");
             break;
         case 0x06:
